@@ -464,7 +464,13 @@ ProjWits(b, ref, X, mx, Y, my, kDrop, kChg, kAdd, skipOf(_)) ==
      ELSE IF mx[i] # 0 /\ my[i] # 0
           THEN EntWits(b, s, X.els[mx[i]].ents, Y.els[my[i]].ents, kDrop, kChg, kAdd, skipOf(i))
      ELSE {} : i \in 1..Len(ref.els)}
-  \cup (IF Unmatched(my, Y) > Unmatched(mx, X) THEN {<<"C03", kAdd, "ctor.unknown", "element">>} ELSE {})
+  \cup (IF Unmatched(my, Y) > Unmatched(mx, X)
+        THEN \* extra elements that pair with nothing built: if a content control (w:sdt) of the reference
+             \* vanished in this very step, they are its children coming back without their wrapper
+             LET lostSdt == {CtorName(b, ref.els[i].src) : i \in {j \in 1..Len(ref.els) : mx[j] # 0 /\ my[j] = 0 /\ ref.els[j].k = "sdt"}}
+             IN IF lostSdt # {} THEN {<<"C03", kAdd, c, "sdt-content">> : c \in lostSdt}
+                ELSE {<<"C03", kAdd, "ctor.unknown", "element">>}
+        ELSE {})
   \cup (IF Unmatched(my, Y) < Unmatched(mx, X) THEN {<<"C03", kDrop, "ctor.unknown", "element">>} ELSE {})
   \cup (IF X.hs = 1 /\ Y.hs = 0 THEN {<<"C03", kDrop, "ctor.sect", "sectPr">>}
         ELSE IF X.hs = 0 /\ Y.hs = 1 THEN {<<"C03", kAdd, "ctor.sect", "sectPr">>}
